@@ -24,7 +24,7 @@ REQUIRED_THEOREMS = [
     "Acn.C07.le_remaining_rr", "Acn.C07.le_estimator_bound", "Acn.C07.zero_for_inactive_greedy",
     "Acn.C07.zero_for_inactive_rr", "Acn.C07.preprocess_lbOk", "Acn.C07.schedule_feasible",
 ]
-BUDGET = {"quick": 900, "thorough": 9000, "search": 4000}
+BUDGET = {"quick": 900, "thorough": 9000, "search": 1200}
 TRUSTED = [
     "numpy (@, linalg.norm, arange, minimum, clip), Python sorted (stable), dict order, deque, copy",
     "Interface / Simulator / ChargingNetwork as the source of SessionInfo and InfrastructureInfo "
